@@ -108,7 +108,7 @@ pub fn classes() -> &'static Vec<LexClass> {
             c.line_terminated = true;
             v.push(c);
         }
-        for a in ["@ann a b", "@reversible", "@a.b c // d", "@a /* b", "@a \"q", "@ann\ttab after the keyword"] {
+        for a in ["@ann a b", "@reversible", "@a.b c // d", "@a /* b", "@a \"q", "@ann\ttab after the keyword", "@_internal keep [2:3]", "@_", "@_a.b_ c"] {
             let mut c = lc(&format!("annotation:{a}"), a, "ANNOTATION");
             c.line_terminated = true;
             v.push(c);
